@@ -56,6 +56,8 @@ type Anchors struct {
 	// aws
 	AwsIncrease, AwsDelete, AwsSetSize, AwsOneShot, AwsAttach, AwsTerminateOrphans   *ssa.Function
 	GroupStep                                                                        *ssa.Function // the function that calls the scan body: RunOnce, or a per-group helper RunOnce calls once in its group loop
+	AwsRefresh                                                                       *ssa.Function
+	TAwsNodeGroup                                                                    *types.Named
 	AwsFleetReq                                                                      *ssa.Function // the function holding the CreateFleet call: the fleet strategy itself, or a request helper under it
 	AwsBelongs, AwsNodes, AwsCreateFleetInput, AwsDecrease, AwsTargetSize            *ssa.Function
 	AwsMinSize, AwsMaxSize, AwsGetInstance, AwsProviderIDToInstanceID, AwsInstToProv *ssa.Function
@@ -610,6 +612,8 @@ func resolveAnchors(p *Prog) *Anchors {
 	a.AwsMinSize = a.method(awsNG, "MinSize")
 	a.AwsMaxSize = a.method(awsNG, "MaxSize")
 	a.AwsGetInstance = a.method(awsCP, "GetInstance")
+	a.AwsRefresh = a.method(awsCP, "Refresh")
+	a.TAwsNodeGroup = awsNG
 
 	a.census()
 	p.noExpand = map[*ssa.Function]bool{}
@@ -828,6 +832,9 @@ func resolveAnchors(p *Prog) *Anchors {
 	// functions the rules name by their call terms keep those terms; every other one-block,
 	// effect-free helper with a numeric or struct result is read as the expression it returns
 	p.keepCalls = map[*ssa.Function]bool{}
+	if a.TState != nil {
+		p.nonNilPtr = types.NewPointer(a.TState)
+	}
 	av := reflect.ValueOf(a).Elem()
 	for i := 0; i < av.NumField(); i++ {
 		if !av.Type().Field(i).IsExported() {
